@@ -11,7 +11,9 @@ use std::time::Duration;
 
 use turmoil_net::fixture::{self, ClientServer};
 use turmoil_net::shim::tokio::net::{TcpListener, TcpStream, UdpSocket};
-use turmoil_net::{rule, EnterGuard, HostId, Net, Packet, RuleGuard, Transport, Verdict};
+use turmoil_net::{
+    rule, EnterGuard, HostId, KernelConfig, Latency, Net, Packet, Rule, RuleGuard, RuleId, Transport, Verdict,
+};
 
 use crate::util::*;
 
@@ -178,6 +180,10 @@ struct Shared {
     guards: BTreeMap<u32, RuleGuard>,
     tcp_written: u64,
     tcp_read: u64,
+    /// every RuleId ever handed out (must be pairwise distinct)
+    rule_ids: Vec<RuleId>,
+    /// disagreements between equivalent calls: printed as `OBS xcheck ...`
+    xfail: Vec<String>,
 }
 
 impl Shared {
@@ -191,22 +197,86 @@ impl Shared {
 
 type Sh = Rc<RefCell<Shared>>;
 
-fn mk_rule(spec: RuleSpec, sh: Sh) -> impl FnMut(&Packet) -> Verdict + 'static {
-    move |pkt: &Packet| {
-        let v = match &pkt.payload {
-            Transport::Udp(d) => {
-                if spec.table.is_empty() {
-                    V::P
-                } else {
-                    spec.table[(tag_of(&d.payload) as usize) % spec.table.len()]
-                }
+fn rule_verdict(spec: &RuleSpec, sh: &Sh, pkt: &Packet) -> Verdict {
+    let (v, tag) = match &pkt.payload {
+        Transport::Udp(d) => {
+            let tag = tag_of(&d.payload) as usize;
+            if spec.table.is_empty() {
+                (V::P, tag)
+            } else {
+                (spec.table[tag % spec.table.len()], tag)
             }
-            Transport::Tcp(_) => spec.tcp,
-        };
-        let mut s = sh.borrow_mut();
-        let t_us = s.now_us();
-        s.rlog.push(RuleLog { t_us, label: spec.label, desc: desc(pkt), v });
-        v.verdict()
+        }
+        Transport::Tcp(s) => (spec.tcp, s.payload.len()),
+    };
+    let mut s = sh.borrow_mut();
+    let t_us = s.now_us();
+    s.rlog.push(RuleLog { t_us, label: spec.label, desc: desc(pkt), v });
+    match v {
+        // the built-in helper, used the way its documentation suggests (wrapped in another rule)
+        V::D(us) if (tag + spec.label as usize) % 2 == 1 => {
+            let out = Latency::fixed(Duration::from_micros(us)).on_packet(pkt);
+            if out != v.verdict() {
+                s.xfail.push(format!("latency-helper r{}", spec.label));
+            }
+            out
+        }
+        _ => v.verdict(),
+    }
+}
+
+/// closure form (`impl<F: FnMut(&Packet) -> Verdict> Rule for F`)
+fn mk_rule(spec: RuleSpec, sh: Sh) -> impl FnMut(&Packet) -> Verdict + 'static {
+    move |pkt: &Packet| rule_verdict(&spec, &sh, pkt)
+}
+
+/// hand-written `impl Rule`
+struct TableRule {
+    spec: RuleSpec,
+    sh: Sh,
+}
+
+impl Rule for TableRule {
+    fn on_packet(&mut self, pkt: &Packet) -> Verdict {
+        rule_verdict(&self.spec, &self.sh, pkt)
+    }
+}
+
+/// Install through the free function, alternating the two ways of writing a rule.
+fn install_free(spec: &RuleSpec, sh: &Sh) -> RuleGuard {
+    let g = if spec.label % 2 == 0 {
+        rule(mk_rule(spec.clone(), sh.clone()))
+    } else {
+        rule(TableRule { spec: spec.clone(), sh: sh.clone() })
+    };
+    note_id(sh, &g);
+    g
+}
+
+fn note_id(sh: &Sh, g: &RuleGuard) {
+    let mut s = sh.borrow_mut();
+    if s.rule_ids.contains(&g.id()) {
+        s.xfail.push("rule-id-reused".into());
+    }
+    let id = g.id();
+    s.rule_ids.push(id);
+}
+
+/// Three equivalent ways of ending a rule's life.
+fn drop_guard(label: u32, g: RuleGuard) {
+    let id = g.id();
+    match label % 3 {
+        0 => drop(g),
+        1 => {
+            // forget, then uninstall through a guard rebuilt from the id
+            g.forget();
+            drop(RuleGuard::new(id));
+        }
+        _ => {
+            // uninstalling twice is a no-op
+            drop(g);
+            drop(RuleGuard::new(id));
+        }
     }
 }
 
@@ -355,7 +425,11 @@ impl WireWorld {
 
     fn cur(&self, h: usize) {
         if let Some(g) = &self.guard {
-            g.set_current(self.hosts[h]);
+            if (h + self.udp.len() + self.streams.len()) % 2 == 0 {
+                g.set_current(self.hosts[h]);
+            } else {
+                turmoil_net::set_current(self.hosts[h]);
+            }
         }
     }
 
@@ -376,6 +450,7 @@ impl WireWorld {
                     "sguard" => match &self.guard {
                         Some(g) => {
                             let rg = g.rule(r);
+                            note_id(&self.sh, &rg);
                             self.sh.borrow_mut().guards.insert(spec.label, rg);
                             obs("ok".into())
                         }
@@ -388,7 +463,8 @@ impl WireWorld {
                         if let Some(h) = h {
                             self.cur(*h);
                         }
-                        let rg = rule(r);
+                        drop(r);
+                        let rg = install_free(spec, &self.sh);
                         self.sh.borrow_mut().guards.insert(spec.label, rg);
                         obs("ok".into())
                     }
@@ -398,7 +474,7 @@ impl WireWorld {
                 let g = self.sh.borrow_mut().guards.remove(label);
                 match g {
                     Some(g) => {
-                        drop(g);
+                        drop_guard(*label, g);
                         obs("ok".into())
                     }
                     None => obs("noguard".into()),
@@ -579,6 +655,10 @@ fn run_wire(lay: &Layout, ops: &[SOp]) -> Vec<String> {
     for op in ops {
         lines.push(op.line());
         lines.extend(w.exec(op));
+        let xs: Vec<String> = w.sh.borrow_mut().xfail.drain(..).collect();
+        for x in xs {
+            lines.push(format!("OBS xcheck {x}"));
+        }
     }
     drop(w);
     lines
@@ -623,7 +703,18 @@ async fn host_task(plan: HostPlan, sh: Sh) {
         // 1. what arrived since the last step
         for (s, sock) in &udp {
             let mut buf = [0u8; 64];
-            while let Ok((n, _)) = sock.try_recv_from(&mut buf) {
+            loop {
+                // alternate the non-blocking call and a once-polled `recv_from` future
+                let got = if (step + *s as usize) % 2 == 0 {
+                    sock.try_recv_from(&mut buf).ok()
+                } else {
+                    let mut f = Box::pin(sock.recv_from(&mut buf));
+                    match poll_once(f.as_mut()) {
+                        Poll::Ready(Ok(x)) => Some(x),
+                        _ => None,
+                    }
+                };
+                let Some((n, _)) = got else { break };
                 sh.borrow_mut().arrivals.push((now, h, *s, tag_of(&buf[..n])));
             }
         }
@@ -666,7 +757,7 @@ async fn host_task(plan: HostPlan, sh: Sh) {
             for op in ops {
                 let obs: String = match op {
                     SOp::Install { spec, .. } => {
-                        let g = rule(mk_rule(spec.clone(), sh.clone()));
+                        let g = install_free(spec, &sh);
                         sh.borrow_mut().guards.insert(spec.label, g);
                         "ok".into()
                     }
@@ -674,7 +765,7 @@ async fn host_task(plan: HostPlan, sh: Sh) {
                         let g = sh.borrow_mut().guards.remove(label);
                         match g {
                             Some(g) => {
-                                drop(g);
+                                drop_guard(*label, g);
                                 "ok".into()
                             }
                             None => "noguard".into(),
@@ -691,7 +782,13 @@ async fn host_task(plan: HostPlan, sh: Sh) {
                         }
                     }
                     SOp::USend { s, ip, port, tag, .. } => match udp.get(s) {
-                        Some(sock) => match sock.try_send_to(&tag_bytes(*tag), ip.sa(*port)) {
+                        Some(sock) => match if tag % 2 == 0 {
+                            sock.try_send_to(&tag_bytes(*tag), ip.sa(*port))
+                        } else if tag % 4 == 1 {
+                            sock.send_to(&tag_bytes(*tag), ip.sa(*port)).await
+                        } else {
+                            sock.send_to(&tag_bytes(*tag), ip.sa(*port).to_string()).await
+                        } {
                             Ok(_) => "ok".into(),
                             Err(e) => format!("err {}", err_tok(&e)),
                         },
@@ -750,12 +847,27 @@ fn run_fixture(lay: &Layout, scripts: Vec<Vec<Vec<SOp>>>, st: &mut Stats) -> Vec
         finish: h == nh - 1,
     };
     if lay.fixture == "lo" {
-        fixture::lo(host_task(plan(0), sh.clone()));
+        if lay.steps % 2 == 0 {
+            fixture::lo(host_task(plan(0), sh.clone()));
+        } else {
+            fixture::lo_with_config(KernelConfig::default(), host_task(plan(0), sh.clone()));
+        }
     } else {
-        let mut cs = ClientServer::new();
+        let mut cs = match lay.steps % 3 {
+            0 => ClientServer::new(),
+            1 => ClientServer::with_config(KernelConfig::default()),
+            _ => ClientServer::default(),
+        };
         for h in 0..nh - 1 {
             let ips: Vec<std::net::IpAddr> = lay.addrs[h].iter().map(|x| x.to_ip()).collect();
-            cs = cs.server(ips, host_task(plan(h), sh.clone()));
+            // address list forms: Vec, single address, array
+            cs = if ips.len() == 1 && h % 2 == 0 {
+                cs.server(ips[0], host_task(plan(h), sh.clone()))
+            } else if ips.len() == 2 {
+                cs.server([ips[0], ips[1]], host_task(plan(h), sh.clone()))
+            } else {
+                cs.server(ips, host_task(plan(h), sh.clone()))
+            };
         }
         let ips: Vec<std::net::IpAddr> = lay.addrs[nh - 1].iter().map(|x| x.to_ip()).collect();
         cs.run(ips, host_task(plan(nh - 1), sh.clone()));
@@ -844,6 +956,9 @@ fn run_fixture(lay: &Layout, scripts: Vec<Vec<Vec<SOp>>>, st: &mut Stats) -> Vec
         *st.verdicts.entry(e.v.tok().chars().next().unwrap().to_string()).or_insert(0) += 1;
     }
     lines.push(format!("ORA tcp written={} read={}", s.tcp_written, s.tcp_read));
+    for x in s.xfail.iter() {
+        lines.push(format!("OBS xcheck {x}"));
+    }
     lines
 }
 
